@@ -128,6 +128,18 @@ public:
     virtual void
     ProcessXObjectTypeCallback(XObjectTypeCallback&     theCallbackObject) const;
 
+protected:
+
+    /**
+     * Forget the values derived from the string.  A derived class must
+     * call this when it changes the value of the string.
+     */
+    void
+    clearCachedValues()
+    {
+        m_cachedNumberValue = 0.0;
+    }
+
 private:
 
     friend class XObjectResultTreeFragProxyText;
